@@ -50,8 +50,9 @@ def check_module_case(case, path=None):
     try:
         if own:
             path = os.path.join(d, name + '.py')
-            with open(path, 'w') as f:
-                f.write('\n'.join(lines) + '\n')
+            with open(path, 'w', encoding='utf-8') as f:
+                # some files start with a UTF-8 byte-order mark (Windows editors, utf-8-sig)
+                f.write(('\ufeff' if case.get('bom') else '') + '\n'.join(lines) + '\n')
         for style in STYLES:
             with sandbox.quiet():
                 exs = list(core.parse_doctestables(path, style=style, analysis='static'))
@@ -169,7 +170,11 @@ def check_case(case, ctx):
 @composite
 def module_strategy(D, max_items):
     m = modules.build_module(D, importable=False, fail_kinds=(None,), max_items=max_items)
-    return modules.case_of(m)
+    case = modules.case_of(m)
+    case['bom'] = D.chance(1, 6)
+    if case['bom']:
+        case['features'] = sorted(set(case['features']) | {'utf8_bom'})
+    return case
 
 
 @composite
